@@ -501,14 +501,15 @@ func runRollout(r *vs.Rand, i int, seed uint64, out *vs.Out, crash bool) {
 			sc.w.sim.CutAfter = cutK
 		}
 		if k == faultRound {
-			if cutK%2 == 0 {
-				// aimed at the intent records: the first ControllerRevision write of this sync fails
+			if cutK%3 != 0 {
+				// aimed at the intent records: the first ControllerRevision write of this sync - whatever its verb - fails
+				// (409 = AlreadyExists for a create, Conflict otherwise), or the first write of one particular verb
 				aimed := []vs.Fault{
-					{Verb: "update", Code: 409, Reason: "Conflict"}, {Verb: "update", Code: 409, Reason: "Conflict"}, {Verb: "update", Code: 500, Reason: "InternalError"},
-					{Verb: "create", Code: 409, Reason: "AlreadyExists"}, {Verb: "create", Code: 500, Reason: "InternalError"},
-					{Verb: "delete", Code: 409, Reason: "Conflict"}, {Verb: "delete", Code: 404, Reason: "NotFound"}, {Verb: "update", Code: 404, Reason: "NotFound"},
+					{Verb: "write", Code: 409}, {Verb: "write", Code: 409}, {Verb: "write", Code: 500, Reason: "InternalError"}, {Verb: "write", Code: 404, Reason: "NotFound"},
+					{Verb: "update", Code: 409, Reason: "Conflict"}, {Verb: "update", Code: 500, Reason: "InternalError"},
+					{Verb: "create", Code: 409, Reason: "AlreadyExists"}, {Verb: "delete", Code: 409, Reason: "Conflict"},
 				}
-				f := aimed[(cutK/2+int(seed))%len(aimed)]
+				f := aimed[(cutK+int(seed))%len(aimed)]
 				f.Resource, f.Nth = "controllerrevisions", 1
 				sc.w.sim.Faults = []*vs.Fault{&f}
 			} else {
